@@ -85,6 +85,10 @@ NOT_RUNNABLE = [
 FIT_NOT_RUNNABLE = {
     "TemporalDictionaryEnsemble": "sklearn 1.7 parameter validation (InvalidParameterError in fit)",
     "WEASEL": "sklearn 1.7 parameter validation (InvalidParameterError in fit)",
+    "KNeighborsTimeSeriesClassifier": "sklearn 1.7 KNeighborsClassifier.fit validation ('requires y to be passed')",
+    "ShapeDTW": "fits a KNeighborsTimeSeriesClassifier (see above)",
+    "ElasticEnsemble": "grid-searches KNeighborsTimeSeriesClassifier (see above); the failing search "
+                       "also leaves scikit-learn's global configuration changed",
     "TSCStrategy": "benchmarking strategies need Task objects (constructor contract only)",
     "TSRStrategy": "benchmarking strategies need Task objects (constructor contract only)",
     "ColumnTransformer": "sklearn 1.7 ColumnTransformer._iter has a different signature than 0.24",
@@ -102,6 +106,48 @@ BENIGN_GUARD_WHAT = {
 
 APPLY_METHODS = ["predict", "predict_proba", "transform", "inverse_transform", "update",
                  "update_predict", "update_predict_single", "score"]
+
+
+def driver_init():
+    """Property-local stand-ins (driver processes of C04 only) that make the distance-based classifiers
+    importable so that their constructor / guard / fit contracts are exercised on the real classes and
+    not only read from the source: (1) numpy 2 has no `np.math`; (2) scikit-learn 1.7 has no
+    `sklearn.neighbors._base._check_weights` - the scikit-learn 0.24 function is restored verbatim;
+    (3) the Cython extension `sktime.distances.elastic_cython` is not built - replaced by a module
+    whose eight distance functions are a squared Euclidean distance on the common prefix (the VALUES
+    of distances are irrelevant to C04: parameters, clone, fitted state)."""
+    import math
+    import sys
+    import types
+    import numpy as np
+    if not hasattr(np, "math"):
+        np.math = math
+    import sklearn.neighbors._base as nb
+    if not hasattr(nb, "_check_weights"):
+        def _check_weights(weights):
+            if weights in (None, "uniform", "distance"):
+                return weights
+            elif callable(weights):
+                return weights
+            else:
+                raise ValueError("weights not recognized: should be 'uniform', "
+                                 "'distance', or a callable function")
+        nb._check_weights = _check_weights
+    try:
+        import sktime.distances.elastic_cython  # noqa: F401
+    except ImportError:
+        m = types.ModuleType("sktime.distances.elastic_cython")
+
+        def _standin(x, y, *args, **kwargs):
+            x, y = np.asarray(x, dtype=float), np.asarray(y, dtype=float)
+            n = min(x.shape[0], y.shape[0])
+            return float(np.sum((x[:n] - y[:n]) ** 2))
+        for name in ("ddtw_distance", "dtw_distance", "erp_distance", "lcss_distance", "msm_distance",
+                     "twe_distance", "wddtw_distance", "wdtw_distance"):
+            setattr(m, name, _standin)
+        sys.modules["sktime.distances.elastic_cython"] = m
+        import sktime.distances
+        sktime.distances.elastic_cython = m
 
 
 def translate(repo):
